@@ -270,6 +270,10 @@ pub struct SimChain {
     pub rpc_down_from: Option<u64>,
     /// When set, the outage ends by itself after this many (further) failed RPCs.
     pub rpc_down_failures_left: Option<u64>,
+    /// (n, f): once an outage has been seen and is over, the n-th successful RPC from then on is
+    /// the start of another outage of f failed calls.
+    pub second_outage: Option<(u64, u64)>,
+    pub first_outage_seen: bool,
     pub src_count: u64,
     /// Block source calls with index in [a, b) fail with a transient error.
     pub src_fail: Option<(u64, u64)>,
@@ -312,6 +316,8 @@ impl SimChain {
             rpc_count: 0,
             rpc_down_from: None,
             rpc_down_failures_left: None,
+            second_outage: None,
+            first_outage_seen: false,
             src_count: 0,
             src_fail: None,
             src_down: false,
@@ -592,9 +598,19 @@ impl SimChain {
         }
         if self.rpc_down_from.is_none() {
             self.outage_started = false;
+            if let (true, Some((n, f))) = (self.first_outage_seen, self.second_outage) {
+                if n == 0 {
+                    self.second_outage = None;
+                    self.rpc_down_from = Some(idx);
+                    self.rpc_down_failures_left = Some(f);
+                } else {
+                    self.second_outage = Some((n - 1, f));
+                }
+            }
         }
         if self.rpc_down_from.map_or(false, |f| idx >= f) {
             self.outage_started = true;
+            self.first_outage_seen = true;
             let txid = match method {
                 "sendrawtransaction" => params
                     .get(0)
